@@ -130,7 +130,8 @@ def shared_run(ctx) -> Dict[str, Any]:
         doc['cache'] = 'miss'
         for old in glob.glob(os.path.join(cache_dir, 'batchdb-*.pkl')):
             try:
-                os.remove(old)
+                if time.time() - os.path.getmtime(old) > 3 * 3600:      # keep recent entries: scratch-tree runs have their own keys
+                    os.remove(old)
             except OSError:
                 pass
         with open(path, 'wb') as f:
